@@ -177,7 +177,7 @@ func c08MakeCase(idx int) c08Case {
 		// long executing histories: several epochs, so that nodes leave and are invited back
 		c.Steps = rng.Range(25, 45)
 	}
-	if idx%30 == 7 {
+	if idx%25 == 7 {
 		c.Family = "left"
 		c.N0 = rng.Range(3, 4)
 		c.Exec = true
@@ -203,7 +203,7 @@ func TestVF_C08_Histories(t *testing.T) {
 	// histories refuse packets all the time; the package's own knob is turned down so that a history stays in
 	// the millisecond range. No logic is changed.
 	backoff = 2 * time.Millisecond
-	nCases := vfPick(420, 6000)
+	nCases := vfPick(380, 6000)
 	par := 20
 	base, err := os.MkdirTemp("", "vf-c08-")
 	if err != nil {
